@@ -749,6 +749,15 @@ class CompositeCanvas(Canvas):
             self.shards = shards_trim_rows(self.shards, count)
 
         self.coords = self.translate_coords(0, -top)
+        self._drop_trimmed_cursor()
+
+    def _drop_trimmed_cursor(self) -> None:
+        """A cursor that lies in a part that was trimmed away is not part of this canvas any more."""
+        if self.widget_info:
+            raise self._finalized_error
+        cursor = self.coords.get("cursor")
+        if cursor is not None and not (0 <= cursor[0] < self.cols() and 0 <= cursor[1] < self.rows()):
+            del self.coords["cursor"]
 
     def trim_end(self, end: int) -> None:
         """Trim lines from the bottom of the canvas.
@@ -763,6 +772,7 @@ class CompositeCanvas(Canvas):
             raise self._finalized_error
 
         self.shards = shards_trim_rows(self.shards, self.rows() - end)
+        self._drop_trimmed_cursor()
 
     def pad_trim_left_right(self, left: int, right: int) -> None:
         """
@@ -793,6 +803,8 @@ class CompositeCanvas(Canvas):
 
         self.coords = self.translate_coords(left, 0)
         self.shards = shards
+        if left < 0 or right < 0:
+            self._drop_trimmed_cursor()
 
     def pad_trim_top_bottom(self, top: int, bottom: int) -> None:
         """
